@@ -45,6 +45,8 @@ type HTTPReverseProxyOptions struct {
 }
 
 type HTTPReverseProxy struct {
+	// handler is the entry point: it unwraps h2c and passes every request to serveHTTP.
+	handler     http.Handler
 	proxy       http.Handler
 	transport   *http.Transport
 	vhostRouter *Routers
@@ -150,7 +152,10 @@ func NewHTTPReverseProxy(option HTTPReverseProxyOptions, vhostRouter *Routers) *
 		},
 	}
 	rp.transport = proxy.Transport.(*http.Transport)
-	rp.proxy = h2c.NewHandler(proxy, &http2.Server{})
+	rp.proxy = proxy
+	// Requests of an h2c connection reach serveHTTP one by one, so every HTTP/2 stream is
+	// authenticated and routed by its own host, path and user like an HTTP/1.x request.
+	rp.handler = h2c.NewHandler(http.HandlerFunc(rp.serveHTTP), &http2.Server{})
 	return rp
 }
 
@@ -336,6 +341,10 @@ func (rp *HTTPReverseProxy) injectRequestInfoToCtx(req *http.Request) *http.Requ
 }
 
 func (rp *HTTPReverseProxy) ServeHTTP(rw http.ResponseWriter, req *http.Request) {
+	rp.handler.ServeHTTP(rw, req)
+}
+
+func (rp *HTTPReverseProxy) serveHTTP(rw http.ResponseWriter, req *http.Request) {
 	domain, _ := httppkg.CanonicalHost(req.Host)
 	location := req.URL.Path
 	user, passwd, _ := req.BasicAuth()
